@@ -89,12 +89,8 @@ func (w *fsWriter) Write(p []byte) (n int, err error) {
 		if written == len(p) {
 			return len(p), nil
 		}
-		// Copy p to w.buf
-		writable := len(w.buf) - w.offset
-		if len(p) < writable {
-			writable = len(p)
-		}
-		c := copy(w.buf[w.offset:], p[written:writable])
+		// Copy the remainder of p to w.buf, up to the room left in the current leaf
+		c := copy(w.buf[w.offset:], p[written:])
 		w.offset += c
 		written += c
 		if w.offset == len(w.buf) { // sizes line up, flush and continue
